@@ -125,7 +125,7 @@ fn run_one(seed: u64, shard: u64, i: u64, out: &mut ShardOut) {
 }
 
 pub fn run(cfg: &RunCfg) -> (PropMeta, ShardOut, Map<String, Value>) {
-    let n = cfg.n(6000, 240_000);
+    let n = cfg.n(40_000, 1_500_000);
     let per = (n as usize + cfg.threads - 1) / cfg.threads;
     let out = shards(cfg.threads, |shard| {
         let mut out = ShardOut::default();
